@@ -371,6 +371,9 @@ def render(W, case):
             argv = occ + argv
         else:
             envtoks = occ + envtoks
+    # further configuration files on disk, named by a LESS authoritative --config occurrence (or by none): never a source
+    for fname, items in sorted((case.get("extra_files") or {}).items()):
+        files[fname] = "import %s as _P\n" % POOLMOD + "".join("%s = %s\n" % (k, pv(v)) for k, v in items)
     if case["app"]:
         pos = case.get("app_at", "end")
         argv = ([APP] + argv) if pos == "start" else (argv + [APP])
@@ -511,6 +514,10 @@ def model_expr(W, case, rc):
             files = "[(%s, %s)]" % (L.coq_str(os.path.join(W.root, "alt_conf.py")), coq_items(W, rc["fitems"]))
         if "gunicorn.conf.py" in rc["files"]:
             default_file = "(Some [(%s, (RInt 999)); (%s, (RInt 999))])" % (L.coq_str("backlog"), L.coq_str("keepalive"))
+    extra = ["(%s, %s)" % (L.coq_str(os.path.join(W.root, fname)), coq_items(W, items))
+             for fname, items in sorted((case.get("extra_files") or {}).items())]
+    if extra:
+        files = "[" + "; ".join(([files[1:-1]] if files != "[]" else []) + extra) + "]"
     return ("R {| i_argv := %s; i_dict := %s; i_env := %s; i_files := %s; i_modules := %s; i_default_file := %s |}" % (
         L.coq_strs(rc["argv"]), coq_items(W, rc["dict"]),
         "None" if rc["env"] is None else "(Some %s)" % L.coq_str(rc["env"]), files, modules, default_file))
@@ -532,6 +539,10 @@ def register_vt(W, case, rc):
     for p in by["file"]:
         if p["key"] in W.byname:
             W.vt_add(W.byname[p["key"]]["idx"], p["val"])
+    for items in (case.get("extra_files") or {}).values():
+        for k, v in items:
+            if k in W.byname:
+                W.vt_add(W.byname[k]["idx"], v)
     for s in ("env", "cli"):
         acc = {}
         for p in by[s]:
@@ -780,6 +791,21 @@ def fixed_cases(W):
                      fileloc={"via": via, "form": form}, file_present=fp)
                 case([{"src": "file", "key": "workers", "val": 6}, cli_part(W, "env", w, "4")],
                      fileloc={"via": via, "form": form, "short": True}, file_present=fp)
+    # BOTH the command line and GUNICORN_CMD_ARGS name a configuration file: the command line's is the configuration file, the
+    # other one is not a source at all (settings only it mentions keep their defaults)
+    envfile = os.path.join(W.root, "env_conf.py")
+    for form in ("plain", "file:", "python:"):
+        for fp in (False, True):
+            case([{"src": "file", "key": "workers", "val": 6}, cli_part(W, "env", B["config"], envfile)],
+                 fileloc={"via": "cli", "form": form}, file_present=fp,
+                 extra_files={"env_conf.py": [("timeout", 77), ("graceful_timeout", 11), ("workers", 9)]})
+            case([{"src": "file", "key": "proc_name", "val": "fromfile"}, cli_part(W, "env", B["config"], "file:" + envfile),
+                  cli_part(W, "env", w, "4")],
+                 fileloc={"via": "cli", "form": form, "short": True}, file_present=fp,
+                 extra_files={"env_conf.py": [("proc_name", "from-the-env-file"), ("backlog", 12), ("keepalive", 13)]})
+    # a file lying around that nobody names
+    case([{"src": "file", "key": "workers", "val": 6}], fileloc={"via": "env", "form": "plain"},
+         extra_files={"env_conf.py": [("timeout", 77)], "other_conf.py": [("workers", 8)]})
     case([raw("cli", ["-c", os.path.join(W.root, "missing.py")], "exit")])
     case([raw("env", ["-c", "python:c16nosuchmodule"], "exit")])
     case([raw("cli", ["--config="], None), {"src": "file", "key": "workers", "val": 6}],
